@@ -272,7 +272,8 @@ CLAIMS = {
              "segments the frame format can carry and sends the STANDARD frames (C09 reference layout) numbered as the link "
              "prescribes - that they parse is the C09 theorem, that the link admits them is read off the generated table - and "
              "send() returns exactly the answer with exactly one receive-ready per segment but the last. C18_session: ANY "
-             "number of such exchanges on one transport (induction; the numbers wrap). C18_connect / C18_disconnect: SNRM/UA leaves the link connected, DISC/UA disconnected, for every read "
+             "number of such exchanges on one transport (induction; the numbers wrap), and C18_session_counters: afterwards the four "
+             "counters equal the requests sent and the segments received modulo 8. C18_connect / C18_disconnect: SNRM/UA leaves the link connected, DISC/UA disconnected, for every read "
              "granularity. The client's frames always encode (short_encodes, info_encodes). Also kept: the loop-level "
              "theorems over delivered frames. Whole sessions (connect, up to 12 exchanges with wrapping numbers, disconnect, "
              "answers to 5000 bytes in 1..40 segments, read granularity down to single bytes) run as the same script on the "
